@@ -513,14 +513,16 @@ def retry_progress(prog, chk):
                 ok = False
                 if o[0] == "rv" and o[1].get("k") == "discr":
                     ty = o[1].get("ty", "")
-                    ok = ty.startswith("std::result::Result<(svgdx::events::OutputList") or (ty.startswith("std::option::Option<") and ("Tag)" in ty or "SvgElement" in ty))
+                    # the outcome of the element's generate_events (whatever type carries its events and box), or the
+                    # presence of the tag / element
+                    ok = (ty.startswith("std::result::Result<") and "svgdx::errors::SvgdxError" in ty and "OutputList" not in ty.split("svgdx::errors::SvgdxError")[-1]) or (ty.startswith("std::option::Option<") and ("Tag)" in ty or "SvgElement" in ty))
                 elif o[0] == "field":
                     ok = str(o[1][1][-1]) == ".in_specs"
                 elif o[0] == "call" and "fn" in o[2]:
                     cp = Callee(o[2]["fn"])
                     last = cp.path.split("::")[-1]
                     aty = pt.local_ty(R.origin_local(pt, o[2]["args"][0]) or -1) or "" if o[2]["args"] else ""
-                    ok = (last in ("is_some", "is_none") and "SvgElement" in (cp.inst + aty)) or last in ("is_empty", "is_ok", "is_err") and ("Tag" in (cp.inst + aty) or "OutputList, std::option::Option<svgdx::position::BoundingBox>" in (cp.inst + aty))
+                    ok = (last in ("is_some", "is_none") and "SvgElement" in (cp.inst + aty)) or last in ("is_empty", "is_ok", "is_err") and ("Tag" in (cp.inst + aty) or "svgdx::errors::SvgdxError" in (cp.inst + aty))
                 elif o[0] == "rv" and o[1].get("k") == "binop":
                     # the retry loop's own `remain.len() != tags.len()` header: both sides are lengths of the tag lists
                     sides = [R.origin(pt, o[1][sd], carriers={}) for sd in ("a", "b") if isinstance(o[1].get(sd), dict)]
